@@ -9,12 +9,12 @@
 //@ decides: C14: two results merge only if they have the same kind and CID (stream generations may differ); everything else is rejected
 //@ decides: C07/C08: the two harness families above characterise merge_call_results completely on the palette (accepted iff honest(a,b); result == winner(a,b)); call_merge_algebra_glue derives idempotence (re-merging the result with either input or itself changes nothing), symmetry and associativity up to sender/generation from that characterisation by pure solver reasoning; the direct two-merge harnesses (idempotent_*, symmetric_*, associative) run in the thorough tier as confirmation
 //@ outside: whole-trace merging through sliders and FSMs (DESIGN.md 2.2); CID computation (hashing)
-//@ harness: name=call_merge_result_never_lost_req props=C05,C09,C06,C07,C08,C13,C12 cap=900 cost=40 sym="previous state: req (peer/CID selector, any u32 id/generation); current state: each of the 6 kinds in turn (concrete loop), selector, any u32" bound="palette above; 1-byte strings; unwind 8"
-//@ harness: name=call_merge_result_never_lost_reqid props=C05,C09,C06,C07,C08,C13,C12 cap=900 cost=40 sym="previous state: reqid (peer/CID selector, any u32 id/generation); current state: each of the 6 kinds in turn (concrete loop), selector, any u32" bound="palette above; 1-byte strings; unwind 8"
-//@ harness: name=call_merge_result_never_lost_scalar props=C05,C09,C06,C07,C08,C13,C12 cap=900 cost=40 sym="previous state: scalar (peer/CID selector, any u32 id/generation); current state: each of the 6 kinds in turn (concrete loop), selector, any u32" bound="palette above; 1-byte strings; unwind 8"
-//@ harness: name=call_merge_result_never_lost_stream props=C05,C09,C06,C07,C08,C13,C12 cap=900 cost=40 sym="previous state: stream (peer/CID selector, any u32 id/generation); current state: each of the 6 kinds in turn (concrete loop), selector, any u32" bound="palette above; 1-byte strings; unwind 8"
-//@ harness: name=call_merge_result_never_lost_unused props=C05,C09,C06,C07,C08,C13,C12 cap=900 cost=40 sym="previous state: unused (peer/CID selector, any u32 id/generation); current state: each of the 6 kinds in turn (concrete loop), selector, any u32" bound="palette above; 1-byte strings; unwind 8"
-//@ harness: name=call_merge_result_never_lost_failed props=C05,C09,C06,C07,C08,C13,C12 cap=900 cost=40 sym="previous state: failed (peer/CID selector, any u32 id/generation); current state: each of the 6 kinds in turn (concrete loop), selector, any u32" bound="palette above; 1-byte strings; unwind 8"
+//@ harness: name=call_merge_result_never_lost_req props=C05,C09,C07,C08 cap=900 cost=40 sym="previous state: req (peer/CID selector, any u32 id/generation); current state: each of the 6 kinds in turn (concrete loop), selector, any u32" bound="palette above; 1-byte strings; unwind 8"
+//@ harness: name=call_merge_result_never_lost_reqid props=C05,C09,C07,C08,C06 cap=900 cost=40 sym="previous state: reqid (peer/CID selector, any u32 id/generation); current state: each of the 6 kinds in turn (concrete loop), selector, any u32" bound="palette above; 1-byte strings; unwind 8"
+//@ harness: name=call_merge_result_never_lost_scalar props=C05,C09,C07,C08,C13 cap=900 cost=40 sym="previous state: scalar (peer/CID selector, any u32 id/generation); current state: each of the 6 kinds in turn (concrete loop), selector, any u32" bound="palette above; 1-byte strings; unwind 8"
+//@ harness: name=call_merge_result_never_lost_stream props=C05,C09,C07,C08,C12,C13 cap=900 cost=40 sym="previous state: stream (peer/CID selector, any u32 id/generation); current state: each of the 6 kinds in turn (concrete loop), selector, any u32" bound="palette above; 1-byte strings; unwind 8"
+//@ harness: name=call_merge_result_never_lost_unused props=C05,C09,C07,C08 cap=900 cost=40 sym="previous state: unused (peer/CID selector, any u32 id/generation); current state: each of the 6 kinds in turn (concrete loop), selector, any u32" bound="palette above; 1-byte strings; unwind 8"
+//@ harness: name=call_merge_result_never_lost_failed props=C05,C09,C07,C08 cap=900 cost=40 sym="previous state: failed (peer/CID selector, any u32 id/generation); current state: each of the 6 kinds in turn (concrete loop), selector, any u32" bound="palette above; 1-byte strings; unwind 8"
 //@ harness: name=call_merge_accepts_honest_rejects_forged_req props=C04,C14,C07,C08 cap=900 cost=40 sym="previous state: req (peer/CID selector, any u32 id/generation); current state: each of the 6 kinds in turn (concrete loop), selector, any u32" bound="palette above; 1-byte strings; unwind 8"
 //@ harness: name=call_merge_accepts_honest_rejects_forged_reqid props=C04,C14,C07,C08 cap=900 cost=40 sym="previous state: reqid (peer/CID selector, any u32 id/generation); current state: each of the 6 kinds in turn (concrete loop), selector, any u32" bound="palette above; 1-byte strings; unwind 8"
 //@ harness: name=call_merge_accepts_honest_rejects_forged_scalar props=C04,C14,C07,C08 cap=900 cost=40 sym="previous state: scalar (peer/CID selector, any u32 id/generation); current state: each of the 6 kinds in turn (concrete loop), selector, any u32" bound="palette above; 1-byte strings; unwind 8"
